@@ -364,16 +364,23 @@ def run(ctx):
                 ctx.violation({'kind': 'errno-filter', 'fn': 'ensure_tree', 'errno': cls, 'isdir': isdir, 'got': got},
                               {'errno': name, 'path_is_dir': isdir}, 'ensure_tree with makedirs raising %s on %s: %s, specification %s' % (
                                   name, 'a directory' if isdir else 'a file', got, want))
-        try:
-            fileutils.delete_if_exists('/nonexistent/x', remove=boom_factory(err))
-            got = 'swallowed'
-        except OSError as ex:
-            got = 'propagated' if ex is err else 'other-error'
-        z += 1
-        want = 'swallowed' if table[('delete_if_exists', cls, False)] else 'propagated'
-        if got != want:
-            ctx.violation({'kind': 'errno-filter', 'fn': 'delete_if_exists', 'errno': cls, 'got': got}, {'errno': name},
-                          'delete_if_exists with remove raising %s: %s, specification %s' % (name, got, want))
+        # the filter looks at the error the remover reports, not at the path (which may or may not still be there)
+        here = os.path.join(root, 'still_here')
+        with open(here, 'w') as fh:
+            fh.write('x')
+        for target in ('/nonexistent/x', here):
+            try:
+                fileutils.delete_if_exists(target, remove=boom_factory(err))
+                got = 'swallowed'
+            except OSError as ex:
+                got = 'propagated' if ex is err else 'other-error'
+            z += 1
+            want = 'swallowed' if table[('delete_if_exists', cls, False)] else 'propagated'
+            if got != want:
+                ctx.violation({'kind': 'errno-filter', 'fn': 'delete_if_exists', 'errno': cls, 'got': got, 'path_exists': target == here},
+                              {'errno': name, 'path_exists': target == here},
+                              'delete_if_exists (path %s) with remove raising %s: %s, specification %s' % (
+                                  'present' if target == here else 'absent', name, got, want))
     ctx.cov['evaluations'] += z
     ctx.stage('errno-sweep', cases=z, errnos=len(errno.errorcode))
     # binding self-test: a corrupted read trace must be rejected
